@@ -353,7 +353,7 @@ func (e *Engine) assumptions() []string {
 	return []string{
 		"64-bit int/uint arithmetic is treated as mathematical (no overflow obligation); narrower types and conversions get range obligations",
 		"slices and maps are modelled as values: a function that writes through a slice/map parameter or through a map alias is rejected as engine-limit, append is functional (no aliasing through spare capacity), cap() is not modelled",
-		"strings are byte sequences (SMT strings, one character per byte); bytes read are in 0..255",
+		"strings are byte sequences (SMT strings, one character per byte); bytes read are in 0..255; the ordering of strings (<, <=) is an uninterpreted total relation",
 		"pointers to non-package types (*string, ...) have immutable pointees",
 		"user callbacks and interface methods (Execute, handlers, Unmarshaler, ...) do not modify the parser's own data structures; their results are unconstrained",
 		"build configuration GOOS=linux, tags verif: optstyle_windows.go and termsize_windows.go are not part of the verified text",
